@@ -33,7 +33,7 @@ C10|C16)
   case " $* " in *" -replay "*) ;; *)
   OV="$VERIF/.bin/ov.$$"
   rm -rf "$OV"; mkdir -p "$OV"
-  if ! go run -modfile="$MODFILE" ./cmd/overlaygen -repo "$REPO" -rt "$VERIF/mc/schedrt" -out "$OV" . backend/joinserver backend applayer/clocksync applayer/multicastsetup applayer/fragmentation applayer/firmwaremanagement > "$OV/gen.log" 2>&1 \
+  if ! go run -modfile="$MODFILE" ./cmd/overlaygen -repo "$REPO" -rt "$VERIF/mc/schedrt" -out "$OV" . band backend/joinserver backend applayer/clocksync applayer/multicastsetup applayer/fragmentation applayer/firmwaremanagement > "$OV/gen.log" 2>&1 \
      || ! go build -modfile="$MODFILE" -tags "verif sched" -overlay "$OV/overlay.json" -o "$BIN.sched" ./cmd/schedcheck > "$OV/build.log" 2>&1; then
     cat "$OV/gen.log" "$OV/build.log" 2>/dev/null
     echo "HARNESS-ERROR property=$PROP build of the schedule explorer (overlay) failed"
